@@ -1034,7 +1034,7 @@ func (c *extractCtx) decodeStmts(stmts []ast.Stmt) ([]LItem, error) {
 	var countPos token.Pos
 	resetSeen := map[string]bool{}
 	accum := map[types.Object]string{} // local accumulators of list fields that still await their write-back
-	var payloadCountVar types.Object // count := b.Read32()
+	var payloadCountVar types.Object   // count := b.Read32()
 	for i := 0; i < len(stmts); i++ {
 		s := stmts[i]
 		switch st := s.(type) {
